@@ -4,6 +4,8 @@
      <id> R <script> ...        results of every operation of the script
    <script> = blobs=<id>:<chunks>:<manifest>,...;hist=<op>,...;final=<op>
    <op> = push:<b> | pushbad:<b> | tag:<b>:<r> | untag:<r> | delete:<b> | saveindex
+   history items may also be crash:<j>:<op> : the operation was interrupted after j
+   micro-steps and the store was reopened (oci.New) on what was left
    Trailing fields (the JSON script for replays) are ignored. *)
 let unit_good d i = n_of_int (d * 4096 + i)
 let unit_bad d = n_of_int (d * 4096 + 4095)
@@ -27,16 +29,21 @@ let parse_script (s : string) =
       | [a; b; c] -> { bid = int_of_string a; bchunks = int_of_string b; bman = (c = "1") }
       | _ -> failwith "blob") (items (field "blobs")) in
   let find d = List.find (fun b -> b.bid = d) blobs in
-  let parse_op x =
-    match String.split_on_char ':' x with
+  let rec parse_opl l =
+    match l with
     | ["push"; d] -> let b = find (int_of_string d) in Push (n_of_int b.bid, content_good b.bid b.bchunks, b.bman)
     | ["pushbad"; d] -> let b = find (int_of_string d) in Push (n_of_int b.bid, content_bad b.bid b.bchunks, b.bman)
     | ["tag"; d; r] -> Tag (n_of_int (int_of_string d), n_of_int (int_of_string r))
     | ["untag"; r] -> Untag (n_of_int (int_of_string r))
     | ["delete"; d] -> Delete (n_of_int (int_of_string d))
     | ["saveindex"] -> SaveIndex
-    | _ -> failwith ("op " ^ x) in
-  (blobs, List.map parse_op (items (field "hist")), parse_op (field "final"))
+    | _ -> failwith "op" in
+  let parse_op x = parse_opl (String.split_on_char ':' x) in
+  let parse_hop x =
+    match String.split_on_char ':' x with
+    | "crash" :: j :: rest -> Crashed (parse_opl rest, nat_of_int (int_of_string j))
+    | l -> Done (parse_opl l) in
+  (blobs, List.map parse_hop (items (field "hist")), parse_op (field "final"))
 
 (* digest-and-size verification: the name of the blob whose content this is, 0 for anything else *)
 let hfun blobs (c : n list) : n =
@@ -110,12 +117,12 @@ let () =
     | id :: "S" :: sc :: _ ->
       let (blobs, hist, fin) = parse_script sc in
       let h = hfun blobs in
-      let s = run h shuffle inplace ufirst hist init in
+      let s = runc h shuffle inplace ufirst hist init in
       Printf.printf "%s\n" (String.trim (Printf.sprintf "%s STEPS %s" id (String.concat " " (List.map show_step (op_steps h shuffle inplace ufirst s fin)))))
     | id :: "K" :: j :: sc :: _ ->
       let (blobs, hist, fin) = parse_script sc in
       let h = hfun blobs in
-      let s = run h shuffle inplace ufirst hist init in
+      let s = runc h shuffle inplace ufirst hist init in
       let fsk = crash_fs h shuffle inplace ufirst s fin (nat_of_int (int_of_string j)) in
       let s1 = run_op h shuffle inplace ufirst s fin in
       let univ = List.map (fun b -> n_of_int b.bid) blobs in
@@ -128,7 +135,10 @@ let () =
       let rec go s ops acc =
         match ops with
         | [] -> List.rev acc
-        | o :: r -> go (run_op h shuffle inplace ufirst s o) r (show_res (op_res h s o) :: acc) in
-      Printf.printf "%s RES %s\n" id (String.concat " " (go init (hist @ [fin]) []))
+        | Done o :: r -> go (run_op h shuffle inplace ufirst s o) r (show_res (op_res h s o) :: acc)
+        | (Crashed (_, _) as x) :: r ->
+          (* results of the processes that were killed are not part of the observation *)
+          go (run_hop h shuffle inplace ufirst s x) r [] in
+      Printf.printf "%s RES %s\n" id (String.concat " " (go init (hist @ [Done fin]) []))
     | [] -> ()
     | _ -> Printf.printf "BADLINE %s\n" l)
